@@ -1,0 +1,27 @@
+//go:build verif
+
+package middleware
+
+import (
+	"net/http"
+	"reflect"
+
+	"github.com/go-openapi/spec"
+	"github.com/go-openapi/strfmt"
+)
+
+// VerifBindParam runs the untyped binder of one non-body parameter into a fresh target of the
+// Go type the binder derives from the declaration, without the parameter validator.
+// It returns the bound value, or the binder's error. A nil type is reported as (nil, nil, nil).
+func VerifBindParam(param spec.Parameter, sp *spec.Swagger, formats strfmt.Registry, r *http.Request, rp RouteParams) (interface{}, reflect.Type, error) {
+	b := newUntypedParamBinder(param, sp, formats)
+	tpe := b.Type()
+	if tpe == nil {
+		return nil, nil, nil
+	}
+	target := reflect.Indirect(reflect.New(tpe))
+	if err := b.Bind(r, rp, nil, target); err != nil {
+		return nil, tpe, err
+	}
+	return target.Interface(), tpe, nil
+}
